@@ -23,7 +23,7 @@ instance tree = {field: int | tree | [tree]}  (absent optional fields are missin
 import itertools
 import json
 
-from typedpy import Structure, Integer, Array, Set, Map, String, Serializer, Deserializer, mappers, serialize, deserialize_structure
+from typedpy import ImmutableStructure, Structure, Integer, Array, Set, Map, String, Serializer, Deserializer, mappers, serialize, deserialize_structure
 from typedpy.structures import StructMeta
 from typedpy.serialization.mappers import DoNotSerialize
 import sys as _sys
@@ -152,6 +152,10 @@ def gen_class(rng, depth, max_levels, nest_budget, kinds=("one", "one", "arr", "
             fd = {"n": nm, "opt": rng.random() < 0.45, "kind": kind}
             if kind != "int":
                 fd["cls"] = gen_class(rng, depth + 1, 2, nest_budget, kinds)
+                if kind == "set" and _counter[0] % 2 == 0 and len(fd["cls"]["levels"]) == 1:
+                    # items of a Set are hashed when the set is built: every other item class is an ImmutableStructure
+                    # (whatever such an instance keeps in its __dict__ must stay out of the document)
+                    fd["cls"]["immutable"] = True
             fields.append(fd)
         sofar = sofar + fields
         levels.append({"mapper": gen_attr(rng, sofar) if sofar else None, "fields": fields})
@@ -435,7 +439,8 @@ def gen_cases(rng, tier, n):
                     case["entry"] = "function"
                 cases.append(case)
     return (cases + history_cases(rng, max(20, n // 25)) + closed_cases(rng, max(40, n // 8)) + fixed_cases()
-            + map_cases(rng, max(40, n // 10)) + fc_cases(rng, max(60, n // 12)) + scalar_cases(rng, max(80, n // 10)) + mapfield_cases(rng, max(60, n // 10)) + ku_cases(rng, max(30, n // 16)) + des_cases(rng, max(40, n // 12)) + mi_cases(rng, max(60, n // 8)))
+            + map_cases(rng, max(40, n // 10)) + fc_cases(rng, max(60, n // 12)) + scalar_cases(rng, max(80, n // 10)) + positional_cases(rng, max(40, n // 40))
+            + subclass_cases(rng, max(60, n // 25)) + inherit_history_cases(rng, max(80, n // 20)) + mapfield_cases(rng, max(60, n // 10)) + ku_cases(rng, max(30, n // 16)) + des_cases(rng, max(40, n // 12)) + mi_cases(rng, max(60, n // 8)))
 
 
 def _flat(name, fields, mapper, opt=()):
@@ -514,7 +519,8 @@ def build_class(cd, registry):
     names = level_names(cd)
     local = {}
     for li, lv in enumerate(cd["levels"]):
-        bases = tuple(local[b] for b in level_bases(cd, li)) or (Structure,)
+        bases = tuple(local[b] for b in level_bases(cd, li)) or (
+            (ImmutableStructure,) if cd.get("immutable") else (Structure,))
         ns = {}
         for f in lv["fields"]:
             if f["kind"] == "int":
@@ -582,6 +588,8 @@ def dump_inst(x, cd, canonical):
         if k in INTERNAL:
             continue
         if k not in by_name:
+            if k.startswith("_"):
+                continue      # bookkeeping the instance keeps for itself: must not show up in the document (oracle)
             raise RuntimeError(f"unexpected attribute {k}")
         pairs.append([k, val(by_name[k], v)])
     return {"o": pairs}
@@ -715,6 +723,12 @@ def run_impl(case):
         return run_fc(case)
     if case.get("oracle") == "scalar":
         return run_scalar(case)
+    if case.get("oracle") == "positional":
+        return run_positional(case)
+    if case.get("oracle") == "subclass":
+        return run_subclass(case)
+    if case.get("oracle") == "inherit":
+        return run_inherit(case)
     cd = case["cls"]
     registry = {}
     cls = build_class(cd, registry)
@@ -728,12 +742,31 @@ def run_impl(case):
     if required != {f["n"] for f in all_fields(cd) if not f["opt"]}:
         raise RuntimeError(f"required {required}")
     pre = []
+    filed, mutated = {}, []
     for call in case.get("pre") or []:
         pre.append(run_call(find_cd(cd, call["target"]), registry, call))
+        _check_filed(registry, filed, mutated)
     out = run_call(cd, registry, case)
+    if case.get("pre"):
+        _check_filed(registry, filed, mutated)
+        if mutated:
+            out["cache_mutated"] = mutated
     if pre:
         out["pre"] = pre
     return out
+
+
+def _check_filed(registry, filed, mutated):
+    """an entry of the process-wide mapper cache must never change once it is filed (checked after every call of a history)"""
+    real_cache = _mappers_module.aggregated_mapper_by_class
+    classes = {c: n for n, c in registry.items()}
+    for k in [(c, ov, cm) for c in classes for ov in ("",) for cm in (False, True)]:
+        if k in real_cache:
+            text = json.dumps(mapper_to_wire(real_cache[k]), sort_keys=True)
+            key = (classes[k[0]], k[1], k[2])
+            if key in filed and filed[key] != text:
+                mutated.append([str(key), filed[key][:200], text[:200]])
+            filed.setdefault(key, text)
 
 
 def run_call(cd, registry, case):
@@ -885,6 +918,12 @@ def mapper_kinds(cd, acc):
 
 
 def tags(case, impl, model):
+    if case.get("oracle") == "positional":
+        return ["stream=positional-items(oracle-only)", "positional.order=" + case["order"], f"camel={case['camel']}"]
+    if case.get("oracle") == "subclass":
+        return ["stream=subclass-instances(oracle-only)", f"camel={case['camel']}"]
+    if case.get("oracle") == "inherit":
+        return ["stream=base-then-subclass(oracle-only)", "inherit.first=" + case["first"], f"camel={case['camel']}"]
     if case.get("oracle") == "scalar":
         r = impl.get("deser", {})
         return ["stream=scalar-leaves(oracle-only)", f"camel={case['camel']}", "scalar.nest=" + str(case["nest"]),
@@ -960,6 +999,9 @@ def nontrivial(case):
 
 
 def describe(case, impl, model):
+    if case.get("oracle") in ("positional", "subclass", "inherit"):
+        return {"stream": case["oracle"] + " (oracle-only)", "case": {k: v for k, v in case.items() if k != "vals"},
+                "real": impl.get("steps") or impl.get("doc")}
     if case.get("oracle") == "scalar":
         return {"stream": "non-Integer scalar leaves (oracle-only)", "case": {k: v for k, v in case.items() if k not in ("picks", "absent")},
                 "real_document": impl.get("doc"), "real_deserialized": impl.get("deser")}
@@ -1400,4 +1442,216 @@ def judge_scalar(case, impl):
     if not (r.get("ok") and r.get("equal")):
         fails.append(("scalar-leaves:roundtrip", "deserialize(serialize(x)) != x with non-Integer scalar leaves: document "
                       + json.dumps(impl["doc"])[:300] + " gave " + json.dumps(r)[:300] + " for " + desc))
+    return None, fails
+
+# ------------------------------------------------------------------ oracle-only stream: positional items of several classes
+# (Array(items=[A, B]): the holder's base mapper merges the item classes' aggregates into ONE dict — which must be a
+#  private dict: what the process-wide cache filed for A must still be A's own aggregate afterwards, so A serialized on
+#  its own, after the holder, is written under A's keys)
+
+def positional_cases(rng, n):
+    out = []
+    for _ in range(n):
+        shared = rng.choice(["v_x", "a_b", "g"])
+        out.append({"oracle": "positional", "shared": shared, "ka": "KA_" + shared.replace("_", ""),
+                    "kb": "KB_" + shared.replace("_", ""), "b_extra": rng.choice(["w", "c_d"]),
+                    "a_mapper_kind": rng.choice(["dict", "dict", "lower", "camel"]),
+                    "n_items": rng.choice([2, 2, 3]), "camel": rng.random() < 0.3,
+                    "order": rng.choice(["holder-A-B", "holder-B-A", "A-holder-A", "holder-holder-A"]),
+                    "vals": [rng.choice([0, 1, 2, 5]) for _ in range(8)]})
+    return out
+
+
+def run_positional(case):
+    sh, camel = case["shared"], case["camel"]
+    _counter[0] += 1
+    a_map = {"d": [[sh, case["ka"]]]} if case["a_mapper_kind"] == "dict" else case["a_mapper_kind"]
+    b_map = {"d": [[sh, case["kb"]]]}
+    A = StructMeta(f"PA{_counter[0]}", (Structure,), {sh: Integer, "_serialization_mapper": to_py_mapper(a_map)})
+    B = StructMeta(f"PB{_counter[0]}", (Structure,), {sh: Integer, case["b_extra"]: Integer,
+                                                     "_serialization_mapper": to_py_mapper(b_map)})
+    items = [A, B] + ([A] if case["n_items"] == 3 else [])
+    H = StructMeta(f"PH{_counter[0]}", (Structure,), {"items_f": Array(items=items), "z": Integer})
+    vals = iter(case["vals"] * 3)
+    a = A(**{sh: next(vals)})
+    b = B(**{sh: next(vals), case["b_extra"]: next(vals)})
+    h = H(items_f=[a, b] + ([A(**{sh: next(vals)})] if case["n_items"] == 3 else []), z=next(vals))
+    spec = {"A": {_safe_key([a_map], camel, sh): getattr(a, sh)},
+            "B": {_safe_key([b_map], camel, sh): getattr(b, sh),
+                  _safe_key([b_map], camel, case["b_extra"]): getattr(b, case["b_extra"])}}
+    real_cache = _mappers_module.aggregated_mapper_by_class
+    filed, out = {}, {"steps": [], "spec": spec}
+    for step in case["order"].split("-"):
+        obj = {"holder": h, "A": a, "B": b}[step]
+        try:
+            doc = Serializer(obj).serialize(camel_case_convert=camel)
+        except Exception as e:
+            out["steps"].append({"step": step, "err": err_name(e), "msg": str(e)[:200]})
+            continue
+        out["steps"].append({"step": step, "doc": doc})
+        # an entry of the process-wide cache must never change once it is filed
+        for k, v in list(real_cache.items()):
+            if k[0] in (A, B, H):
+                key = (k[0].__name__[:2],) + tuple(k[1:])
+                text = json.dumps(mapper_to_wire(v), sort_keys=True)
+                if key in filed and filed[key] != text:
+                    out.setdefault("cache_mutated", []).append([str(key), filed[key], text, step])
+                filed.setdefault(key, text)
+    return out
+
+
+def judge_positional(case, impl):
+    fails = []
+    desc = json.dumps({k: v for k, v in case.items() if k not in ("oracle", "vals")})[:300]
+    for st in impl["steps"]:
+        if "err" in st:
+            fails.append((f"positional-items:serialize-raises:{st['err']}", f"{st.get('msg')} at step {st['step']} of {desc}"))
+        elif st["step"] in ("A", "B") and st["doc"] != impl["spec"][st["step"]]:
+            fails.append(("positional-items:item-class-alone-gets-foreign-keys",
+                          f"class {st['step']} serialized on its own (history {case['order']}, the holder has positional items "
+                          f"of several classes) is not written under its own keys: real {json.dumps(st['doc'])} specified "
+                          f"{json.dumps(impl['spec'][st['step']])} for {desc}"))
+    if impl.get("cache_mutated"):
+        fails.append(("cache-entry-mutated:aggregated_mapper_by_class",
+                      "an entry of the process-wide mapper cache changed after it was filed: "
+                      + json.dumps(impl["cache_mutated"])[:500] + " for " + desc))
+    return None, fails
+
+
+# ------------------------------------------------------------------ oracle-only stream: nested values that are subclass instances
+# (a value whose class is a SUBCLASS of the declared class is written with its own class's aggregate and the call's
+#  camel_case_convert — directly nested and as an Array item)
+
+def subclass_cases(rng, n):
+    out = []
+    for _ in range(n):
+        pool = SAFE_NAMES[:]
+        rng.shuffle(pool)
+        base_f = [pool.pop() for _ in range(rng.randint(1, 2))]
+        sub_f = [pool.pop() for _ in range(rng.randint(1, 2))]
+        out.append({"oracle": "subclass", "base_f": base_f, "sub_f": sub_f, "base_mapper": _safe_mapper(rng, base_f),
+                    "holder_field": pool.pop(), "camel": rng.random() < 0.6,
+                    "vals": [rng.choice([0, 1, 2, 5, 7]) for _ in range(12)]})
+    return out
+
+
+def run_subclass(case):
+    camel = case["camel"]
+    _counter[0] += 1
+    ns = {f: Integer for f in case["base_f"]}
+    if case["base_mapper"] is not None:
+        ns["_serialization_mapper"] = to_py_mapper(case["base_mapper"])
+    Base = StructMeta(f"SB{_counter[0]}", (Structure,), ns)
+    Sub = StructMeta(f"SD{_counter[0]}", (Base,), {f: Integer for f in case["sub_f"]})
+    H = StructMeta(f"SH{_counter[0]}", (Structure,), {"n_s": Base, "arr_s": Array[Base], case["holder_field"]: Integer})
+    vals = iter(case["vals"] * 3)
+
+    def sub():
+        return Sub(**{f: next(vals) for f in case["base_f"] + case["sub_f"]})
+
+    def base():
+        return Base(**{f: next(vals) for f in case["base_f"]})
+
+    x = H(n_s=sub(), arr_s=[sub(), base()], **{case["holder_field"]: next(vals)})
+    lst = [case["base_mapper"]]
+
+    def doc_of(o, fields):
+        return {_safe_key(lst, camel, f): getattr(o, f) for f in fields}
+
+    spec = {_safe_key([], camel, "n_s"): doc_of(x.n_s, case["base_f"] + case["sub_f"]),
+            _safe_key([], camel, "arr_s"): [doc_of(x.arr_s[0], case["base_f"] + case["sub_f"]), doc_of(x.arr_s[1], case["base_f"])],
+            _safe_key([], camel, case["holder_field"]): getattr(x, case["holder_field"])}
+    out = {"spec_doc": spec}
+    try:
+        out["doc"] = Serializer(x).serialize(camel_case_convert=camel)
+        doc_f = serialize(x, camel_case_convert=camel)
+        if doc_f != out["doc"]:
+            out["ser_paths_differ"] = [out["doc"], doc_f]
+    except Exception as e:
+        out["ser_err"] = err_name(e)
+        out["ser_msg"] = str(e)[:300]
+    return out
+
+
+def judge_subclass(case, impl):
+    desc = json.dumps({k: v for k, v in case.items() if k not in ("oracle", "vals")})[:300]
+    if "ser_err" in impl:
+        return None, [(f"subclass-instance:serialize-raises:{impl['ser_err']}", f"{impl.get('ser_msg')} for {desc}")]
+    fails = []
+    if "ser_paths_differ" in impl:
+        fails.append(("subclass-instance:serializer-paths-differ", json.dumps(impl["ser_paths_differ"])[:300] + " for " + desc))
+    if impl["doc"] != impl["spec_doc"]:
+        fails.append(("keyset-law:subclass-instance", "a nested value that is an instance of a subclass of the declared class must be "
+                      f"written under its own class's keys with the call's camel_case_convert={case['camel']}: real "
+                      + json.dumps(impl["doc"])[:300] + " specified " + json.dumps(impl["spec_doc"])[:300] + " for " + desc))
+    return None, fails
+
+# ------------------------------------------------------------------ oracle-only stream: a base class first, then its subclass
+# (anything the (de)serializer keeps per class — caches, attributes set on the class — must not be inherited by a
+#  subclass that adds fields: base class round trip first, then the subclass's, in one process; also with the base
+#  class reached first as a nested class of another structure)
+
+def inherit_history_cases(rng, n):
+    out = []
+    for _ in range(n):
+        pool = SAFE_NAMES[:]
+        rng.shuffle(pool)
+        base_f = [pool.pop() for _ in range(rng.randint(1, 2))]
+        sub_f = [pool.pop() for _ in range(rng.randint(1, 2))]
+        out.append({"oracle": "inherit", "base_f": base_f, "sub_f": sub_f,
+                    "base_mapper": rng.choice([None, "lower", "camel", _safe_mapper(rng, base_f)]),
+                    "sub_mapper": rng.choice([None, None, "lower", "camel", _safe_mapper(rng, sub_f)]),
+                    "first": rng.choice(["base", "base", "base-nested", "sub"]), "camel": rng.random() < 0.3,
+                    "strict": rng.random() < 0.3, "vals": [rng.choice([0, 1, 2, 5, 7]) for _ in range(10)]})
+    return out
+
+
+def run_inherit(case):
+    camel = case["camel"]
+    _counter[0] += 1
+    ns = {f: Integer for f in case["base_f"]}
+    if case["base_mapper"] is not None:
+        ns["_serialization_mapper"] = to_py_mapper(case["base_mapper"])
+    Base = StructMeta(f"IB{_counter[0]}", (Structure,), ns)
+    ns2 = {f: Integer for f in case["sub_f"]}
+    if case["sub_mapper"] is not None:
+        ns2["_serialization_mapper"] = to_py_mapper(case["sub_mapper"])
+    Sub = StructMeta(f"IS{_counter[0]}", (Base,), ns2)
+    Holder = StructMeta(f"IH{_counter[0]}", (Structure,), {"n_b": Base, "z": Integer})
+    vals = iter(case["vals"] * 3)
+    b = Base(**{f: next(vals) for f in case["base_f"]})
+    sb = Sub(**{f: next(vals) for f in case["base_f"] + case["sub_f"]})
+    h = Holder(n_b=Base(**{f: next(vals) for f in case["base_f"]}), z=next(vals))
+    mb = case["base_mapper"]
+    sub_list = [mb, case["sub_mapper"] if case["sub_mapper"] is not None else mb]
+    spec = {"base": {_safe_key([mb], camel, f): getattr(b, f) for f in case["base_f"]},
+            "sub": {_safe_key(sub_list, camel, f): getattr(sb, f) for f in case["base_f"] + case["sub_f"]}}
+    order = {"base": ["base", "sub"], "base-nested": ["holder", "sub"], "sub": ["sub", "base", "sub"]}[case["first"]]
+    out = {"steps": [], "spec": spec}
+    for step in order:
+        cls, x = {"base": (Base, b), "sub": (Sub, sb), "holder": (Holder, h)}[step]
+        st = {"step": step}
+        try:
+            st["doc"] = Serializer(x).serialize(camel_case_convert=camel)
+            y = Deserializer(cls, camel_case_convert=camel, use_strict_mapping=case["strict"]).deserialize(st["doc"])
+            st["equal"] = bool(y == x)
+            st["repr"] = repr(y)[:160]
+        except Exception as e:
+            st["err"] = err_name(e)
+            st["msg"] = str(e)[:200]
+        out["steps"].append(st)
+    return out
+
+
+def judge_inherit(case, impl):
+    fails = []
+    desc = json.dumps({k: v for k, v in case.items() if k not in ("oracle", "vals")})[:300]
+    order = [st["step"] for st in impl["steps"]]
+    for st in impl["steps"]:
+        if st["step"] in impl["spec"] and "doc" in st and st["doc"] != impl["spec"][st["step"]]:
+            fails.append(("keyset-law:base-then-subclass", f"{st['step']} class serialized in the history {order}: real "
+                          f"{json.dumps(st['doc'])} specified {json.dumps(impl['spec'][st['step']])} for {desc}"))
+        if "err" in st or not st.get("equal"):
+            fails.append(("roundtrip:base-then-subclass", f"deserialize(serialize(x)) != x for the {st['step']} class in the "
+                          f"history {order} (a class and then its subclass in one process): {json.dumps(st)[:300]} for {desc}"))
     return None, fails
